@@ -101,7 +101,10 @@ class Universe:
     def field_kind(self, cname, field):
         for c in self.mro(cname):
             if c in self.obj_classes and field in self.obj_classes[c]:
-                return kind_of_annotation(self.obj_classes[c][field], self)
+                k = kind_of_annotation(self.obj_classes[c][field], self)
+                if field.startswith("g_") and k.head in ("list", "set", "dict"):
+                    k = K(*(tuple(k) + ("g",)))      # ghost field: its container lives in the ghost address space
+                return k
         return None
 
     def find_contract(self, cname, meth):
@@ -167,6 +170,8 @@ class State:
         self.in_binder = 0
         self.typed_seen = set()
         self.on_new_heap = None
+        self.ghost_mode = 0
+        self.galloc = None
 
     def fork(self):
         s = State(self.uni)
@@ -178,6 +183,7 @@ class State:
         s.glob = self.glob       # shared on purpose (ids only ever get added)
         s.typed_seen = set(self.typed_seen)
         s.on_new_heap = self.on_new_heap
+        s.galloc = self.galloc
         return s
 
     def assume(self, f, glob=False):
